@@ -91,7 +91,7 @@ class Roster(V.Family):
     driver_pkg = "container"
     monitor = ("ContainerRosterTrace.tla", "ContainerRosterTrace.cfg")
     monitor_constants = FIXED
-    step_keys = ("act", "S", "c", "v", "from", "len", "bk", "rs", "m", "sigs")
+    step_keys = ("act", "S", "c", "v", "from", "len", "bk", "dup", "rs", "m", "sigs")
     reset_keys = ("n", "src")
     assume = COMMON_ASSUME + [
         "roster keys are real secp256r1 keys (chain.DetKey); signatures are real ECDSA/SHA-256 signatures (RFC 6979) of the message, "
@@ -122,7 +122,10 @@ class Roster(V.Family):
             else "254-257" if ln <= 257 else ">257"
         kinds = tuple(tuple(sorted(set((s["f"], s["m"]) for s in vec))) for vec in r.get("sigs", []))
         nsig = tuple(len(vec) for vec in r.get("sigs", []))
-        return (r["act"], r["res"], r["ret"], sc, r.get("v"), lc, tuple(r.get("rs", [])), kinds, nsig)
+        rept = False   # does the committed roster of the addressed container list a key twice in one vector?
+        if r["act"] in ("verify", "submit"):
+            rept = any(len(set(v)) < len(v) for v in r["obs"]["comm"][r["c"]])
+        return (r["act"], r["res"], r["ret"], sc, r.get("v"), lc, r.get("dup", False), tuple(r.get("rs", [])), kinds, nsig, rept)
 
     def extra_coverage(self, trace_all, flags_all):
         mx = 0
@@ -131,6 +134,8 @@ class Roster(V.Family):
                 for v in vs:
                     mx = max(mx, len(v))
         return dict(committee_sizes=sorted(set(r["n"] for r in trace_all if r["act"] == "reset")), longest_committed_vector=mx,
+                    steps_on_rosters_with_repeated_keys=sum(1 for r in trace_all if r["act"] in ("verify", "submit") and
+                                                            any(len(set(v)) < len(v) for v in r["obs"]["comm"][r["c"]])),
                     accepted_nonvacuous=sum(1 for r in trace_all if r["act"] in ("verify", "submit") and r["res"] == "HALT" and
                                             (r["ret"] == "true" or r["act"] == "submit") and len(r["obs"]["reps"][r["c"]]) > 0),
                     accepted_matrices=sum(1 for r in trace_all if r["act"] in ("verify", "submit") and
